@@ -831,6 +831,22 @@ def search_float(res, tier, boost, rng):
                 h = min(max(hh, 1.001e-3), 0.999e3)
                 b = a + h
                 hh = b - a
+            # functions whose variation over the element is tiny against an absolute constant or against their own size:
+            # a residual of amplitude 1e-10, a large constant plus a gentle slope, a short element far from the origin
+            if deg >= 1 and rep >= 2 and rep % 4 == 2:
+                mode = ('tiny', 'offset', 'far')[(rep // 4 + N // 2) % 3]
+                if mode == 'tiny':
+                    c = [v * 2.0**-33 for v in c]
+                elif mode == 'offset':
+                    c = [16384.0 + c[0]] + [v / 16 for v in c[1:]]
+                    a, h = rng.uniform(0, 1), 1.0
+                    b = a + h
+                    hh = b - a
+                else:
+                    a, h = rng.choice([100.0, 150.0, 37.0]), 2.0**-9
+                    b = a + h
+                    hh = b - a
+                res.bump('small_variation_cases_' + mode)
             cf, af, bf = [F(v) for v in c], F(a), F(b)
             A = max(abs(a), abs(b))
             f = poly_fun(c)
